@@ -44,7 +44,7 @@ def model_value(model, v):
     if isinstance(v, VV.VSeq):
         r = model.eval(v.t, model_completion=True)
         items = seq_items(r, model)
-        items = [min(255, max(0, x)) for x in items] if v.is_bytes else items
+        items = [x % 256 for x in items] if v.is_bytes else items
         if v.kind == 'bytes':
             return {'__bytes__': bytes(items).hex()}
         if v.kind == 'bytearray':
